@@ -32,6 +32,57 @@ def run(ctx):
     ctx.attempt(r6, ctx, F)
     ctx.rule('C14.R7', 'the destination listing the plan looks source paths up in is the scan itself, or the scan minus entries the source does not have', floor=2)
     ctx.attempt(dst_listing_complete, ctx, F, 'C14.R7')
+    ctx.rule('C14.R8', 'every function under the one-way sync that renames a file into place also stamps that very path with set_local_mtime after the rename', floor=2)
+    ctx.attempt(every_publication_stamped, ctx, F, 'C14.R8')
+
+
+def every_publication_stamped(ctx, F, rid):
+    """The quick check of the next run compares (size, whole-second mtime): a file that is put in place WITHOUT the source mtime
+    is planned and sent again on every later run.  Whatever delivers a file to a local destination - the two delivery functions,
+    or a fast path added next to them (empty files, links, small files) - publishes with a rename; the necessary condition decided
+    here: in every crate function reachable from the one-way sync entry points that renames onto a non-staging path, the same path
+    (same origins, captures resolved) is handed to set_local_mtime, and when both sit in one body the stamp is reachable from the
+    rename.  A rename whose destination the function was handed by its caller and does not stamp itself is not followed."""
+    from rules import C04
+    cg = callgraph_of(F)
+    graph = cg.reach([RUN_LOCAL, RUN_REMOTE])
+    tops = sorted({b.path.split('::{')[0] for b, bb, c in cg.call_sites(lambda c: c.endswith('fs::rename'), within=graph)})
+    for top in tops:
+        bodies = [x for x in F.nested(top)]
+        if F.body(top) is not None and F.body(top) not in bodies:
+            bodies.append(F.body(top))
+        key = lambda body, op: frozenset((pb.path, o.kind, str(o.key), o.bb, tuple(o.path)) for pb, o in C04.capture_origins(F, body, op) if o.kind != 'comb')
+        stamps = []
+        for body in bodies:
+            fl = flow_of(body)
+            for sb, st in fl.calls_to('meta::set_local_mtime'):
+                stamps.append((body, sb, key(body, st['args'][0])))
+        for body in bodies:
+            fl = flow_of(body)
+            for rb, rt in fl.calls(lambda c: c.endswith('fs::rename')):
+                if rb not in fl.cfg.reachable():
+                    continue
+                if is_staging_name(F, fl, rt['args'][1]) or all(o.kind == 'call' and str(o.key).endswith('tmp_path') for pb, o in C04.capture_origins(F, body, rt['args'][1])):
+                    continue            # moving something TO a staging name publishes nothing
+                k = key(body, rt['args'][1])
+                short = top.split('::')[-1]
+                if not k:
+                    ctx.undecided(rid, '%s renames onto a path whose origin is not read' % short)
+                    continue
+                same = [(sbody, sb) for sbody, sb, sk in stamps if sk == k]
+                ordered = [1 for sbody, sb in same if sbody is not body or fl.cfg.can_reach(rb, sb)]
+                if ordered:
+                    ctx.ok(rid, '%s:rename-then-stamp' % short, 'the renamed-onto path is handed to set_local_mtime after the rename', term_loc(body, rb))
+                elif same:
+                    ctx.bad(rid, '%s:stamp-before-rename' % short, '%s stamps the path only before the rename that replaces the file: the published file keeps the time of the run' % short, term_loc(body, rb))
+                elif all(kind in ('param', 'upvar') for (_, kind, _, _, _) in k):
+                    ctx.undecided(rid, '%s renames onto a path it was handed and does not stamp it itself: whether its callers do is not followed' % short)
+                elif top not in __import__('rules.panics', fromlist=['x']).baseline_functions() and stamps:
+                    ctx.undecided(rid, '%s (new code) renames a file into place and stamps some other path: which is which is not decided' % short)
+                else:
+                    ctx.bad(rid, '%s:publishes-without-mtime' % short,
+                            '%s renames a file into place under the synchronised destination and never sets its mtime to the source\'s: the next run sees a quick-check mismatch and sends the file again (the mirror never converges)' % short,
+                            term_loc(body, rb))
 
 
 RESTRICTING = ('filter', 'filter_map', 'take_while', 'skip_while', 'skip', 'take', 'step_by', 'retain', 'split_off', 'remove', 'extract_if')
@@ -460,7 +511,8 @@ def r3(ctx, F):
                 ok = epoch and secs
     ctx.check(ok, 'C14.R3', 'set_local_mtime', 'set_modified(UNIX_EPOCH + Duration::from_secs(secs))', 'set_local_mtime does not interpret its argument as whole epoch seconds', loc(s, s.lo))
     # remote reader: integer part before '.'
-    p = F.body('meta::parse_remote_meta_output')
+    # (the body that parses ONE record: parse_remote_meta_output itself or the function it maps over the records)
+    p = C19.record_parser_body(F) or F.body('meta::parse_remote_meta_output')
     pfl = flow_of(p)
     dot = [(sb, st) for sb, st in pfl.calls(lambda c: c.endswith('::split')) if any(o.kind == 'const' and o.key == ord('.') for o in pfl.origins(st['args'][1]))]
     first = False
